@@ -176,6 +176,37 @@ func runC01(c *c01Case) error {
 			return fmt.Errorf("blob %s damaged by commit: %v", id, err)
 		}
 	}
+	// the zero-length tree: remove everything, commit, and retrieve what that commit refers to
+	var names []string
+	for i := range c.Files {
+		names = append(names, fmt.Sprintf("f%d", i), fmt.Sprintf("f%d.copy", i))
+	}
+	if r := b.Run(append([]string{"rm"}, names...)...); !r.OK() {
+		return fmt.Errorf("rm failed: %s", r)
+	}
+	rw := b.Run("write-tree")
+	emptyTree := gitfmt.HashObject("tree", nil)
+	if !rw.OK() || strings.TrimSpace(rw.Stdout) != emptyTree {
+		return fmt.Errorf("write-tree on the empty staging area: want %s, got %s", emptyTree, rw)
+	}
+	if r := b.Run("commit", "-m", "emptied"); !r.OK() {
+		return fmt.Errorf("commit of the emptied staging area failed: %s", r)
+	}
+	fin := Observe(b)
+	cm, err := gitfmt.ReadCommit(fin.Store, fin.HeadCommit())
+	if err != nil {
+		return fmt.Errorf("commit object not stored intact: %v", err)
+	}
+	if cm.Tree != emptyTree {
+		return fmt.Errorf("commit of the empty staging area names tree %s, the id of the zero-length tree is %s", cm.Tree, emptyTree)
+	}
+	if o, err := gitfmt.ReadObject(fin.Store, emptyTree); err != nil || o.Kind != "tree" || len(o.Data) != 0 {
+		return fmt.Errorf("the zero-length tree %s cannot be retrieved from the store: %v", emptyTree, err)
+	}
+	if r := b.Run("cat-file", "-t", emptyTree); !r.OK() || r.Stdout != "tree\n" {
+		return fmt.Errorf("cat-file -t of the zero-length tree: %s", r)
+	}
+	stats.Nontrivial("tree:empty")
 	return nil
 }
 
